@@ -121,6 +121,11 @@ IoURef(A, B) == LET a == {InFrame(q) : q \in A}
                     b == {InFrame(q) : q \in B}
                 IN << Cardinality(a \cap b), Cardinality(a \cup b) >>
 
+ShapeKeys == {"circ", "perim", "axes"}      \* shape features: circularity, perimeter, ellipse axes
+\* A shape value is abstracted by THE MASK IT WAS COMPUTED FROM (NoShape = attribute None/absent):
+\* the value is fresh iff that mask is the node's current mask.
+NoShape == {-2}
+NoShp   == [k \in ShapeKeys |-> NoShape]
 NoPos  == <<>>
 NoIoU  == <<-1, 1>>      \* "attribute missing / None"
 
@@ -136,7 +141,7 @@ Then(r, F(_)) == IF r.ok
 When(c, r, F(_)) == IF c THEN Then(r, F) ELSE r
 
 NoAttrs == [time |-> NoT, tid |-> None, lid |-> None, cust |-> None, pos |-> NoPos,
-            area |-> -1, iou |-> NoIoU]
+            area |-> -1, iou |-> NoIoU, shp |-> NoShp, ecust |-> None]
 \* uniform primitive record (k = kind; unused fields are 0 / NoAttrs / {})
 Prim(k, n, m, a, b, c, d, at, px, pxnone) ==
     [k |-> k, n |-> n, m |-> m, a |-> a, b |-> b, c |-> c, d |-> d, at |-> at, px |-> px, pxnone |-> pxnone]
@@ -146,12 +151,15 @@ Prim(k, n, m, a, b, c, d, at, px, pxnone) ==
 (***************************************************************************)
 \* RegionpropsAnnotator.update for AddNode / UpdateNodeSeg on node n
 RegionOn(S, n) ==
-    IF ~HasSeg \/ ({"pos", "area"} \cap S.act) = {} THEN S
+    IF ~HasSeg \/ (({"pos", "area"} \cup ShapeKeys) \cap S.act) = {} THEN S
     ELSE LET M == MaskOf(S, n)
              a == IF M = {} THEN -1 ELSE AreaRef(M)
              p == IF M = {} THEN NoPos ELSE PosRef(M)
          IN [S EXCEPT !.area = IF "area" \in S.act THEN [@ EXCEPT ![n] = a] ELSE @,
-                      !.pos  = IF "pos"  \in S.act THEN [@ EXCEPT ![n] = p] ELSE @]
+                      !.pos  = IF "pos"  \in S.act THEN [@ EXCEPT ![n] = p] ELSE @,
+                      !.shp  = [k \in ShapeKeys |-> IF k \in S.act
+                                                     THEN [@[k] EXCEPT ![n] = IF M = {} THEN NoShape ELSE M]
+                                                     ELSE @[k]]]
 
 \* EdgeAnnotator.update value for one edge
 IoUOf(S, e) == LET A == MaskOf(S, e[1])
@@ -173,7 +181,8 @@ PAddNode(S, n, at, px, pxnone) ==
     ELSE
       LET S1 == IF pxnone THEN S ELSE SetPix(S, px, n)
           S2 == [S1 EXCEPT !.time[n] = at.time, !.tid[n] = at.tid, !.lid[n] = at.lid,
-                           !.cust[n] = at.cust, !.pos[n] = at.pos, !.area[n] = at.area]
+                           !.cust[n] = at.cust, !.pos[n] = at.pos, !.area[n] = at.area,
+                           !.shp = [k \in ShapeKeys |-> [@[k] EXCEPT ![n] = at.shp[k]]]]
           S3 == RegionOn(S2, n)
           \* TrackAnnotator._handle_add_node (only while the tracklet feature is active)
           S4 == IF "tid" \notin S3.act THEN S3
@@ -193,14 +202,17 @@ PDelNode(S, n, pxgiven, pxnone) ==
                  cust |-> IF "cust" \in S.reg THEN S.cust[n] ELSE None,
                  pos  |-> IF "pos"  \in S.reg THEN S.pos[n]  ELSE NoPos,
                  area |-> IF "area" \in S.reg THEN S.area[n] ELSE -1,
-                 iou  |-> NoIoU]
+                 iou  |-> NoIoU,
+                 shp  |-> [k \in ShapeKeys |-> IF k \in S.reg THEN S.shp[k][n] ELSE NoShape]]
           px == IF pxnone THEN MaskOf(S, n) ELSE pxgiven      \* get_pixels(node) if not given
           S1 == IF HasSeg THEN SetPix(S, px, 0) ELSE S
           \* graph.remove_node also drops incident edges (the action ASSUMES there are none)
           S2 == [S1 EXCEPT !.time[n] = NoT, !.tid[n] = None, !.lid[n] = None, !.cust[n] = None,
                            !.pos[n] = NoPos, !.area[n] = -1,
+                           !.shp = [k \in ShapeKeys |-> [@[k] EXCEPT ![n] = NoShape]],
                            !.E = {e \in @ : e[1] # n /\ e[2] # n}]
-          S3 == [S2 EXCEPT !.iou = [e \in DOMAIN @ |-> IF e \in S2.E THEN @[e] ELSE NoIoU]]
+          S3 == [S2 EXCEPT !.iou = [e \in DOMAIN @ |-> IF e \in S2.E THEN @[e] ELSE NoIoU],
+                           !.ecust = [e \in DOMAIN @ |-> IF e \in S2.E THEN @[e] ELSE None]]
           S4 == IF "tid" \notin S3.act THEN S3
                 ELSE LET S5 == IF at.tid # None THEN [S3 EXCEPT !.t2n = @ \ {<<at.tid, n>>}] ELSE S3
                      IN IF "lid" \in S3.act /\ at.lid # None
@@ -210,15 +222,16 @@ PDelNode(S, n, pxgiven, pxnone) ==
 \* AddEdge(tracks, (u,v), attrs)
 PAddEdge(S, u, v, at) ==
     IF ~Has(S, u) \/ ~Has(S, v) THEN Fail(S, "ValueError")
-    ELSE LET S1 == [S EXCEPT !.E = @ \cup {<<u, v>>}, !.iou[<<u, v>>] = at.iou]
+    ELSE LET S1 == [S EXCEPT !.E = @ \cup {<<u, v>>}, !.iou[<<u, v>>] = at.iou, !.ecust[<<u, v>>] = at.ecust]
              S2 == IoUOn(S1, {<<u, v>>})
          IN Ok(S2, << Prim("AddEdge", u, v, 0, 0, 0, 0, at, {}, TRUE) >>)
 
 \* DeleteEdge(tracks, (u,v)): captures registered edge features
 PDelEdge(S, u, v) ==
     IF <<u, v>> \notin S.E THEN Fail(S, "ValueError")
-    ELSE LET at == [NoAttrs EXCEPT !.iou = IF "iou" \in S.reg THEN S.iou[<<u, v>>] ELSE NoIoU]
-             S1 == [S EXCEPT !.E = @ \ {<<u, v>>}, !.iou[<<u, v>>] = NoIoU]
+    ELSE LET at == [NoAttrs EXCEPT !.iou = IF "iou" \in S.reg THEN S.iou[<<u, v>>] ELSE NoIoU,
+                                   !.ecust = IF "ecust" \in S.reg THEN S.ecust[<<u, v>>] ELSE None]
+             S1 == [S EXCEPT !.E = @ \ {<<u, v>>}, !.iou[<<u, v>>] = NoIoU, !.ecust[<<u, v>>] = None]
          IN Ok(S1, << Prim("DelEdge", u, v, 0, 0, 0, 0, at, {}, TRUE) >>)
 
 \* UpdateTrackIDs(tracks, start, newT, newL) + TrackAnnotator._handle_update_track_ids
@@ -259,7 +272,7 @@ PUpdSeg(S, n, px, added) ==
             IN Ok(S3, << Prim("UpdSeg", n, 0, IF added THEN 1 ELSE 0, 0, 0, 0, NoAttrs, px, FALSE) >>)
 
 \* UpdateNodeAttrs(tracks, n, {key: val}); key in {"cust","pos",...}
-Protected(S) == {"time", "tid", "lid"} \cup (IF HasSeg THEN {"pos", "area", "iou", "shape"} ELSE {})
+Protected(S) == {"time", "tid", "lid"} \cup (IF HasSeg THEN {"pos", "area", "iou"} \cup ShapeKeys ELSE {})
 PUpdAttrs(S, n, key, val) ==
     IF key \in Protected(S) THEN Fail(S, "ValueError")
     ELSE IF ~Has(S, n) THEN Fail(S, "KeyError")
@@ -480,6 +493,53 @@ UPaint(S, old, stroke, v, curTid, force, ord) ==
                 THEN LET rb == InvGroup(r2.s, r2.ps) IN [s |-> rb.s, ok |-> FALSE, err |-> r2.err, ps |-> <<>>]
                 ELSE r2
       IN Finish(r3, TRUE, IF r3.ok /\ newNode /\ stroke # {} THEN v ELSE 0)
+
+(***************************************************************************)
+(* Feature switching: Tracks.enable_features / disable_features            *)
+(***************************************************************************)
+\* every key some annotator of this tracks object can manage
+Available == {"tid", "lid"} \cup (IF HasSeg THEN {"pos", "area", "iou"} \cup ShapeKeys ELSE {})
+RECURSIVE CompsOf(_, _)
+\* components of the undirected graph (X, EE), ordered by smallest member
+CompsOf(X, EE) ==
+    IF X = {} THEN <<>>
+    ELSE LET m == CHOOSE x \in X : \A y \in X : x <= y
+             RECURSIVE G(_)
+             G(Y) == LET Z == Y \cup {e[2] : e \in {f \in EE : f[1] \in Y}} \cup {e[1] : e \in {f \in EE : f[2] \in Y}}
+                     IN IF Z = Y THEN Y ELSE G(Z)
+             C == G({m})
+         IN <<C>> \o CompsOf(X \ C, EE)
+\* GraphAnnotator.compute for the given (already filtered to active) keys
+BulkCompute(S, keys) ==
+    LET S1 == IF ~HasSeg THEN S
+              ELSE [S EXCEPT
+                 !.area = IF "area" \in keys THEN [n \in Node |-> IF MaskOf(S, n) # {} THEN AreaRef(MaskOf(S, n)) ELSE @[n]] ELSE @,
+                 !.pos  = IF "pos" \in keys THEN [n \in Node |-> IF MaskOf(S, n) # {} THEN PosRef(MaskOf(S, n)) ELSE @[n]] ELSE @,
+                 !.shp  = [k \in ShapeKeys |-> IF k \in keys
+                                                THEN [n \in Node |-> IF MaskOf(S, n) # {} THEN MaskOf(S, n) ELSE @[k][n]]
+                                                ELSE @[k]],
+                 !.iou  = IF "iou" \in keys THEN [e \in DOMAIN @ |-> IF e \in S.E THEN IoUOf(S, e) ELSE @[e]] ELSE @]
+        \* TrackAnnotator: ids 1..k in SOME order of the components (here: by smallest member)
+        tc == CompsOf(Present(S1), {e \in S1.E : OutDeg(S1, e[1]) < 2})
+        S2 == IF "tid" \notin keys THEN S1
+              ELSE [S1 EXCEPT !.tid = [n \in Node |-> IF Has(S1, n) THEN CHOOSE i \in 1..Len(tc) : n \in tc[i] ELSE @[n]],
+                              !.t2n = {<<i, n>> : i \in 1..Len(tc), n \in Node} \cap {<<i, n>> \in (1..Len(tc)) \X Node : n \in tc[i]},
+                              !.maxT = Len(tc)]
+        lc == CompsOf(Present(S2), S2.E)
+        S3 == IF "lid" \notin keys THEN S2
+              ELSE [S2 EXCEPT !.lid = [n \in Node |-> IF Has(S2, n) THEN CHOOSE i \in 1..Len(lc) : n \in lc[i] ELSE @[n]],
+                              !.l2n = {<<i, n>> \in (1..Len(lc)) \X Node : n \in lc[i]},
+                              !.maxL = Len(lc)]
+    IN S3
+\* keys: set of model feature names; unknown: the list also names a feature nobody manages
+Enable(S, keys, unknown, recompute) ==
+    IF unknown \/ ~(keys \subseteq Available) THEN [s |-> S, ok |-> FALSE, err |-> "KeyError", emit |-> <<>>]
+    ELSE LET S1 == [S EXCEPT !.act = @ \cup keys, !.reg = @ \cup keys]
+             S2 == IF recompute THEN BulkCompute(S1, keys) ELSE S1
+         IN [s |-> S2, ok |-> TRUE, err |-> "ok", emit |-> <<>>]
+Disable(S, keys, unknown) ==
+    IF unknown \/ ~(keys \subseteq Available) THEN [s |-> S, ok |-> FALSE, err |-> "KeyError", emit |-> <<>>]
+    ELSE [s |-> [S EXCEPT !.act = @ \ keys, !.reg = @ \ keys], ok |-> TRUE, err |-> "ok", emit |-> <<>>]
 
 (***************************************************************************)
 (* History: ActionHistory.undo / redo, Tracks.undo / redo                  *)
